@@ -2,6 +2,7 @@
    [exact lemma] and followed by Print Assumptions.  Model: Model/Health.v (tied to
    proxy_agent_extension/src/common.rs and service_state.rs by the correspondence check). *)
 From GPA Require Import Health HealthProofs.
+From GPA Require Import HealthHistoryProofs.
 
 (* Error only after at least 20 consecutive failed observations: whenever the report after a
    history [obs] (from StatusState::new()) is Error, the history has >= 20 observations and
@@ -72,6 +73,35 @@ Theorem C20_notify_keys_independent : forall (m : smap) (k k' v : bytes) (mx : N
   beq k' k = false -> alookup beq k' (fst (update_entry m k v mx)) = alookup beq k' m.
 Proof. exact update_other_key. Qed.
 Print Assumptions C20_notify_keys_independent.
+
+(* ---- whole histories with several keys interleaved ---- *)
+
+(* what is emitted for key k depends only on k's own notifications, whatever else is notified in between *)
+Theorem C20_notify_history_keys_independent : forall (ops : list (bytes * bytes)) (m : smap) (k : bytes) (mx : N),
+  kouts k ops (run_entries m ops mx) = run_entries m (kproj k ops) mx.
+Proof. exact proj_outs. Qed.
+Print Assumptions C20_notify_history_keys_independent.
+
+(* an emission leaves the key at (value, 1) ... *)
+Theorem C20_emission_resets : forall (m : smap) (k v : bytes) (mx : N),
+  snd (update_entry m k v mx) = true -> alookup beq k (fst (update_entry m k v mx)) = Some (v, 1).
+Proof. exact emission_resets. Qed.
+Print Assumptions C20_emission_resets.
+
+(* ... and from there, in ANY interleaving with other keys, the next 119 notifications of the same value are
+   silent and the 120th is emitted: at most once per 120 repetitions, at history level *)
+Theorem C20_notify_rate_interleaved : forall (ops : list (bytes * bytes)) (m : smap) (k v : bytes),
+  alookup beq k m = Some (v, 1) -> kproj k ops = repeat (k, v) 120 ->
+  kouts k ops (run_entries m ops Consts.ext_max_state_count) = repeat false 119 ++ [true].
+Proof. exact rate_interleaved_120. Qed.
+Print Assumptions C20_notify_rate_interleaved.
+
+(* a notification is silent only when it repeats the stored value below the limit *)
+Theorem C20_silent_only_when_repeated : forall (m : smap) (k v : bytes) (mx : N),
+  snd (update_entry m k v mx) = false ->
+  exists c, alookup beq k m = Some (v, c) /\ (c < mx)%N /\ alookup beq k (fst (update_entry m k v mx)) = Some (v, (c + 1)%N).
+Proof. exact silent_means_same. Qed.
+Print Assumptions C20_silent_only_when_repeated.
 
 (* ---- monitor-loop level: one poll of the agent's aggregate status file = one observation ---- *)
 
